@@ -51,7 +51,7 @@ class C13(core.Prop):
         opts = rx.gen_opts(rng)
         opts.pop('tag', None)
         return {'examples': ex, 'opts': opts, 'size': rx.gen_size(rng), 'seed': rng.choice([None, 1, 7]),
-                'form': rng.choice(['list', 'dict']), 'prune': prune}
+                'form': rng.choice(['list', 'list', 'dict', 'dict0']), 'prune': prune}
 
     def translate(self):
         return translate.regenerate(['Rexpy'])
